@@ -149,8 +149,8 @@ def h_file_clean() -> bool:
             conds.append(not any(x[0] == "fault" for x in ev))
             conds.append(any(x[0] == "stdout" and (hasattr(x[1], "obj") or hexmode) for x in before))
             # 'emitted completely': standard output was flushed after the last thing printed
-            last_out = max(i for i, x in enumerate(before) if x[0] == "stdout")
-            conds.append(any(x[0] == "flush" for x in before[last_out:]))
+            outs_before = [i for i, x in enumerate(before) if x[0] == "stdout"]
+            conds.append(bool(outs_before) and any(x[0] == "flush" for x in before[outs_before[-1]:]))
     if kind == "good":
         want = sym_all([o["clean"], not any(x[0] == "fault" for x in ev), _selected(sev, flags, o)])
         conds.append(bool(want) == (len(removed) == 1))
